@@ -4,7 +4,8 @@
 //
 // Trusted part of this file:
 //  * unsigned_varint::{encode,decode}::u32 with uninterpreted `varint_enc` / `varint_dec` and the round-trip law
-//    `varint_dec(varint_enc(n) ++ rest) == Some((n, rest))` (axiom_varint_round_trip; C27.K1 proves it on the real crate).
+//    `lib_varint_dec(varint_enc(n) ++ rest) == Some((n, rest))` (axiom_varint_round_trip; the native job C27.roundtrip checks it on the real crate
+//    over a boundary grid). The tag parse `varint_dec` of the contracts additionally demands that the bytes consumed ARE the encoding (F15).
 //  * `Format<Value>` mirrors crates/air-lib/interpreter-sede/src/format.rs (same three methods) with
 //    uninterpreted `decode_spec` / `encode_spec`; it cannot be lifted because the contracts need those spec members.
 //    `from_slice` carries the precondition `payload_checked`: it may only be applied to a payload whose codec tag
@@ -15,20 +16,41 @@ verus! {
 
 // ---------------------------------------------------------------- shim: unsigned_varint (trusted)
 pub uninterp spec fn varint_enc(n: u32) -> Seq<u8>;
-pub uninterp spec fn varint_dec(bytes: Seq<u8>) -> Option<(u32, Seq<u8>)>;
+// what unsigned_varint::decode::u32 returns. It silently drops the bits of a fifth byte that do not fit into u32 (finding F15),
+// so it is NOT assumed to accept canonical encodings only.
+pub uninterp spec fn lib_varint_dec(bytes: Seq<u8>) -> Option<(u32, Seq<u8>)>;
 #[verifier::external_body]
 pub proof fn axiom_varint_round_trip(n: u32, rest: Seq<u8>)
-    ensures varint_dec(varint_enc(n) + rest) == Some((n, rest))
+    ensures lib_varint_dec(varint_enc(n) + rest) == Some((n, rest))
 {}
+// the codec tag of a multiformat payload, from the property statement: bytes that ARE the encoding of a codec, nothing else
+pub open spec fn varint_dec(bytes: Seq<u8>) -> Option<(u32, Seq<u8>)> {
+    match lib_varint_dec(bytes) {
+        Some((n, rest)) => if varint_enc(n).len() == bytes.len() - rest.len() { Some((n, rest)) } else { None },
+        None => None,
+    }
+}
+pub proof fn lemma_varint_round_trip(n: u32, rest: Seq<u8>)
+    ensures varint_dec(varint_enc(n) + rest) == Some((n, rest))
+{
+    axiom_varint_round_trip(n, rest);
+}
 pub mod varint_decode {
     use vstd::prelude::*;
     use super::*;
-    pub struct Error;
+    // unsigned_varint::decode::Error
+    pub enum Error { Insufficient, Overflow, NotMinimal }
     #[verifier::external_body]
     pub fn u32(buf: &[u8]) -> (r: Result<(u32, &[u8]), Error>)
-        ensures r is Ok <==> varint_dec(buf@) is Some,
-            r matches Ok((n, rest)) ==> varint_dec(buf@) == Some((n, rest@)),
+        ensures r is Ok <==> lib_varint_dec(buf@) is Some,
+            r matches Ok((n, rest)) ==> lib_varint_dec(buf@) == Some((n, rest@)) && rest@.len() <= buf@.len(),
     { unimplemented!() }
+    // the other widths of unsigned_varint::decode: nothing is known about them (a narrower decoder drops bits, a wider one
+    // accepts more tags), so code that reads the codec with one of them cannot meet the contract of parse_multiformat_bytes
+    #[verifier::external_body] pub fn u8(buf: &[u8]) -> Result<(u8, &[u8]), Error> { unimplemented!() }
+    #[verifier::external_body] pub fn u16(buf: &[u8]) -> Result<(u16, &[u8]), Error> { unimplemented!() }
+    #[verifier::external_body] pub fn u64(buf: &[u8]) -> Result<(u64, &[u8]), Error> { unimplemented!() }
+    #[verifier::external_body] pub fn usize(buf: &[u8]) -> Result<(usize, &[u8]), Error> { unimplemented!() }
 }
 pub mod varint_encode {
     use vstd::prelude::*;
@@ -158,7 +180,7 @@ proof fn multiformat_round_trip<Value, Fmt: Format<Value>>(value: &Value, codec:
             Some(if codec != expected { Err(DecodeError::Codec(codec)) }
                  else { match format.decode_spec(format.encode_spec(value)) { Ok(v) => Ok(v), Err(e) => Err(DecodeError::Format(e)) } })
 {
-    axiom_varint_round_trip(codec, format.encode_spec(value));
+    lemma_varint_round_trip(codec, format.encode_spec(value));
 }
 //@ end
 
